@@ -5,6 +5,7 @@ mod util;
 mod c14;
 mod geom;
 mod c12;
+mod c01;
 mod c13;
 mod c16;
 mod c09;
@@ -55,6 +56,7 @@ fn main() {
         "c10" => geom::main_c10(&args),
         "c11" => geom::main_c11(&args),
         "c12" => c12::main(&args),
+        "c01" => c01::main(&args),
         "c13" => c13::main(&args),
         "c16" => c16::main(&args),
         "c09" => c09::main(&args),
